@@ -166,7 +166,7 @@ func runExtraConfigs(prop, repo string, ff *FindingsFile) []extraResult {
 			continue
 		}
 		pr := runProp(w, prop, "quick", ff)
-			out = append(out, extraResult{summary: fmt.Sprintf("config tags=%s: %d obligations, %d violations", cfg.tags, len(pr.obls), len(pr.violations)), violations: pr.violations})
+		out = append(out, extraResult{summary: fmt.Sprintf("config tags=%s: %d obligations, %d violations", cfg.tags, len(pr.obls), len(pr.violations)), violations: pr.violations})
 	}
 	return out
 }
